@@ -618,8 +618,17 @@ def gen_strings(ctx):
         if "Σ" not in s:          # final-sigma context rule of str.lower is not modelled (see TRUSTED)
             ctx.run("py_lower", [s], "lower")
         ctx.run("py_upper", [s], "upper")
-    step = 1 if not ctx.quick else 37
-    for c in range(0, 0x110000, step):
+    if ctx.quick:
+        # quick tier: EVERY code point that has case (str.lower / upper / islower / isupper not trivial: the whole
+        # content of Gen/CaseTables.v) plus a sample of the caseless ones; thorough tier: every code point
+        sweep = [c for c in range(0x110000) if not 0xD800 <= c < 0xE000 and
+                 (chr(c).lower() != chr(c) or chr(c).upper() != chr(c) or chr(c).islower() or chr(c).isupper())]
+        cased = set(sweep)
+        sweep += [c for c in range(0, 0x110000, 499) if c not in cased] + [c for c in range(0, 0x3000, 23) if c not in cased]
+        ctx.note_exhaustive("py_lower / islower / isupper: all %d code points that have case" % len(cased))
+    else:
+        sweep = range(0, 0x110000)
+    for c in sweep:
         if 0xD800 <= c < 0xE000 or c == 0x3A3:
             continue
         if not ctx.quick and not ctx.time_left():
@@ -1061,91 +1070,8 @@ def a_cash(hrp, nv, d):
     return ref_cash_encode(hrp, ref_convertbits(nv + d, 8, 5))
 
 
-# ---- CBOR (RFC 8949), a few lines: encoder with selectable head width, parser returning (value, consumed)
-def cb_head(major, n, width=None):
-    if width is None:
-        width = 0 if n < 24 else 1 if n < 1 << 8 else 2 if n < 1 << 16 else 4 if n < 1 << 32 else 8
-    if width == 0:
-        return bytes([major << 5 | n])
-    return bytes([major << 5 | {1: 24, 2: 25, 4: 26, 8: 27}[width]]) + n.to_bytes(width, "big")
-
-
-def cb_uint(n, width=None):
-    return cb_head(0, n, width)
-
-
-def cb_bytes(b):
-    return cb_head(2, len(b)) + b
-
-
-def cb_array(items, indefinite=False):
-    return (b"\x9f" + b"".join(items) + b"\xff") if indefinite else cb_head(4, len(items)) + b"".join(items)
-
-
-def cb_map(kvs):
-    return cb_head(5, len(kvs)) + b"".join(k + v for k, v in kvs)
-
-
-def cb_tag(t, item):
-    return cb_head(6, t) + item
-
-
-class CbTag(object):
-    def __init__(self, tag, value):
-        self.tag, self.value = tag, value
-
-
-def cb_parse(b, i=0):
-    """(value, next index) or raises ValueError; ints, bytes, text, array (definite / indefinite), map, tag, simple."""
-    if i >= len(b):
-        raise ValueError("eof")
-    major, ai = b[i] >> 5, b[i] & 31
-    i += 1
-    if ai < 24:
-        n = ai
-    elif ai in (24, 25, 26, 27):
-        w = 1 << (ai - 24)
-        if i + w > len(b):
-            raise ValueError("eof")
-        n, i = int.from_bytes(b[i:i + w], "big"), i + w
-    elif ai == 31 and major == 4:
-        out = []
-        while True:
-            if i >= len(b):
-                raise ValueError("eof")
-            if b[i] == 0xFF:
-                return out, i + 1
-            v, i = cb_parse(b, i)
-            out.append(v)
-    else:
-        raise ValueError("head")
-    if major == 0:
-        return n, i
-    if major == 1:
-        return -1 - n, i
-    if major in (2, 3):
-        if i + n > len(b):
-            raise ValueError("eof")
-        return (bytes(b[i:i + n]) if major == 2 else bytes(b[i:i + n]).decode("utf-8", "replace")), i + n
-    if major == 7:
-        return ("simple", n), i
-    if major == 4:
-        out = []
-        for _ in range(n):
-            v, i = cb_parse(b, i)
-            out.append(v)
-        return out, i
-    if major == 5:
-        d = {}
-        for _ in range(n):
-            k, i = cb_parse(b, i)
-            v, i = cb_parse(b, i)
-            d[k] = v
-        return d, i
-    if major == 6:
-        v, i = cb_parse(b, i)
-        return CbTag(n, v), i
-    raise ValueError("major")
+# ---- CBOR (RFC 8949): own reader / writer, shared with the Byron parse oracles (harness/cborref.py)
+from cborref import (cb_head, cb_uint, cb_bytes, cb_array, cb_map, cb_tag, cb_parse, CbTag, CbSimple)   # noqa: E402
 
 
 # ---- keys
@@ -1292,11 +1218,19 @@ def _byron_direct(a, d):
         if n != len(raw):
             return "ADA-BYRON: accepted %r although %d byte(s) follow the CBOR item (ignored by the decoder)" % (a[0], len(raw) - n)
         tagv, crc = outer
+        if isinstance(crc, CbTag) and crc.tag == 2 and isinstance(crc.value, bytes):
+            crc = int.from_bytes(crc.value, "big")          # a bignum is the same integer (RFC 8949 3.4.3)
         pl, n2 = cb_parse(tagv.value)
         if n2 != len(tagv.value):
             return "ADA-BYRON: accepted %r although %d byte(s) follow the payload CBOR item" % (a[0], len(tagv.value) - n2)
         rh, attrs, ty = pl
-        path = b"" if 1 not in attrs else cb_parse(attrs[1])[0]
+        path = b""
+        if 1 in attrs:
+            path, n3 = cb_parse(attrs[1])
+            if n3 != len(attrs[1]):
+                return "ADA-BYRON: accepted %r although %d byte(s) follow the CBOR item inside attribute 1" % (a[0], len(attrs[1]) - n3)
+            if not isinstance(path, bytes):
+                return "ADA-BYRON: accepted %r although attribute 1 holds %r, not a byte string" % (a[0], path)
         if tagv.tag != 24 or crc != a_crc32(tagv.value) or ty != 0 or len(rh) != 28 or d != rh + path:
             return "ADA-BYRON: accepted %r does not have the Byron layout for the returned %s" % (a[0], d.hex())
     except (ValueError, TypeError, AttributeError, KeyError) as e:
@@ -1756,7 +1690,19 @@ def gen_addr_ada(ctx, keys):
                          ("attr1-bad-cbor", [(cb_uint(1), cb_bytes(b"\x5f"))]), ("attr2-uint-not-bytes", [(cb_uint(2), cb_uint(7))]),
                          ("attr2-cbor-bytes", [(cb_uint(2), cb_bytes(b"\x41\x00"))]), ("attr1-empty-bytes", [(cb_uint(1), cb_bytes(b""))])):
             ctx.run("addr_ada_byron", [a_byron(cb_array([cb_bytes(rh), cb_map(attrs), cb_uint(0)]))], t)
-        for t, raw in (("attrs-not-a-map", cb_array([cb_tag(24, cb_bytes(cb_array([cb_bytes(rh), cb_uint(0), cb_uint(0)]))), cb_uint(0)])),
+        for t, raw in (("crc-as-bignum-tag", cb_array([cb_tag(24, cb_bytes(pl)), cb_tag(2, cb_bytes(a_crc32(pl).to_bytes(4, "big")))])),
+                       ("type-as-false", cb_array([cb_tag(24, cb_bytes(cb_array([cb_bytes(rh), cb_map([]), b"\xf4"]))),
+                                                   cb_uint(a_crc32(cb_array([cb_bytes(rh), cb_map([]), b"\xf4"])))])),
+                       ("root-hash-indefinite-bytes", (lambda q: cb_array([cb_tag(24, cb_bytes(q)), cb_uint(a_crc32(q))]))(
+                           cb_array([b"\x5f" + cb_bytes(rh[:10]) + cb_bytes(rh[10:]) + b"\xff", cb_map([]), cb_uint(0)]))),
+                       ("attr1-item-then-junk", (lambda q: cb_array([cb_tag(24, cb_bytes(q)), cb_uint(a_crc32(q))]))(
+                           cb_array([cb_bytes(rh), cb_map([(cb_uint(1), cb_bytes(cb_bytes(b"\x01\x02") + b"\x00"))]), cb_uint(0)]))),
+                       ("attr1-null", (lambda q: cb_array([cb_tag(24, cb_bytes(q)), cb_uint(a_crc32(q))]))(
+                           cb_array([cb_bytes(rh), cb_map([(cb_uint(1), cb_bytes(b"\xf6"))]), cb_uint(0)]))),
+                       ("attrs-array-key", (lambda q: cb_array([cb_tag(24, cb_bytes(q)), cb_uint(a_crc32(q))]))(
+                           cb_array([cb_bytes(rh), cb_map([(cb_array([]), cb_bytes(b"\x00")), (cb_uint(1), cb_bytes(cb_bytes(b"\x07")))]), cb_uint(0)]))),
+                       ("tag-24-nested-tag", cb_array([cb_tag(24, cb_tag(24, cb_bytes(pl))), cb_uint(a_crc32(pl))])),
+                       ("attrs-not-a-map", cb_array([cb_tag(24, cb_bytes(cb_array([cb_bytes(rh), cb_uint(0), cb_uint(0)]))), cb_uint(0)])),
                        ("tag-value-uint", cb_array([cb_tag(24, cb_uint(5)), cb_uint(0)])), ("crc-is-bytes", cb_array([cb_tag(24, cb_bytes(b"\x00")), cb_bytes(b"\x00")])),
                        ("not-an-array", cb_uint(5)), ("empty", b"")):
             ctx.run("addr_ada_byron", [a_b58enc(raw) if raw else ""], t)
@@ -1776,161 +1722,57 @@ def gen_addr(ctx):
 
 
 # ------------------------------------------------------------------ known findings (address level)
+# The seven findings of the first round (C10-XMR-INTEG-LEN, C10-P2WPKH-LEN, C10-ALGO-NONCANON, C10-FIL-NONCANON,
+# C10-NANO-PADBITS, C10-BYRON-TRAILING, C10-BYRON-TYPEERROR) are repaired in /repo and recorded as fixed; the models
+# follow the repaired code, so their streams are ordinary correspondence cases now and need no predicate.
 
-def a_xmr_dec(s):
-    """Monero block Base58 from its definition (strict); None when not decodable"""
-    bl = _c11.xmr_blocks(s)
-    if bl is None or any(c not in B58 for c in s):
-        return None
-    out = b""
-    for t, d in bl:
-        v = 0
-        for c in t:
-            v = v * 58 + B58.index(c)
-        if v >= 256 ** d:
-            return None
-        out += v.to_bytes(d, "big")
-    return out
-
-
-def match_xmr_integ_len(fn, args, record):
-    """XmrIntegratedAddrDecoder accepts a payload that has the plain (no payment id) length."""
-    if fn != "addr_xmr" or record.get("kind") != "direct" or args[2] is None:
-        return False
-    raw = a_xmr_dec(args[0])
-    return raw is not None and len(raw) == len(args[1]) + 64 + 4
-
-
-def match_xmr_integ_len_replay():
-    ps, pv = a_ed(bytes(range(32))), a_ed(bytes(range(1, 33)))
-    s = a_xmr(b"\x13", ps + pv)
-    r = impl_call(_xmr_impl, [s, b"\x13", bytes(8)])
-    return "XmrIntegratedAddrDecoder.DecodeAddr(%r, net_ver=b'\\x13', payment_id=bytes(8)) accepted (payload has no payment id)" % s if r[0] == "ok" else None
-
-
-def match_p2wpkh_len(fn, args, record):
-    """P2WPKHAddrDecoder returns the 32-byte program of a version-0 (P2WSH) address."""
-    if fn != "addr_p2wpkh" or record.get("kind") != "direct":
-        return False
-    r = ref_segwit_decode(args[0], args[1])
-    return r is not None and r[0] == 0 and len(r[1]) == 32
-
-
-P2WSH_WITNESS = "bc1qqqqsyqcyq5rqwzqfpg9scrgwpugpzysnzs23v9ccrydpk8qarc0szrtjt7"
-
-
-def match_p2wpkh_len_replay():
-    r = impl_call(lambda a: _bu.P2WPKHAddrDecoder.DecodeAddr(a, hrp="bc"), P2WSH_WITNESS)
-    return "P2WPKHAddrDecoder.DecodeAddr(%r, hrp='bc') returned %d bytes" % (P2WSH_WITNESS, len(r[1])) if r[0] == "ok" and len(r[1]) != 20 else None
-
-
-def _spare_variant(s, alph, body_from, nsym, mask):
-    """s minus trailing '=' with the spare bits of the last symbol cleared, or None if s has not that shape"""
-    t = s.rstrip("=")
-    body = t[body_from:]
-    if len(body) != nsym or body[-1] not in alph or len(s) - len(t) > 6:
-        return None
-    return t[:-1] + alph[alph.index(body[-1]) & ~mask]
-
-
-def match_algo_noncanon(fn, args, record):
-    """AlgoAddrDecoder accepts an address with non-zero spare bits in the last symbol and/or written-out '=' padding."""
-    if fn != "addr_algo" or record.get("kind") != "direct":
-        return False
-    c = _spare_variant(args[0], RFC32, 0, 58, 3)
-    r = impl_call(_bu.AlgoAddrDecoder.DecodeAddr, args[0])
-    return c is not None and c != args[0] and r[0] == "ok" and a_algo(r[1]) == c
-
-
-def match_algo_noncanon_replay():
-    s = a_algo(a_ed(bytes(range(32))))
-    bad = [t for t in (a_algo(a_ed(bytes(range(32))), 1), s + "======") if impl_call(_bu.AlgoAddrDecoder.DecodeAddr, t)[0] == "ok"]
-    return "AlgoAddrDecoder.DecodeAddr accepts %s beside the address %s" % (", ".join(bad), s) if bad else None
-
-
-def match_fil_noncanon(fn, args, record):
-    """FilSecp256k1AddrDecoder accepts non-zero spare bits in the last symbol and/or a written-out '='."""
-    if fn != "addr_fil" or record.get("kind") != "direct":
-        return False
-    c = _spare_variant(args[0], FIL32, 2, 39, 7)
-    r = impl_call(_bu.FilSecp256k1AddrDecoder.DecodeAddr, args[0])
-    return c is not None and c != args[0] and r[0] == "ok" and a_fil(r[1]) == c
-
-
-def match_fil_noncanon_replay():
-    h = bytes(range(20))
-    bad = [t for t in (a_fil(h, 5), a_fil(h) + "=") if impl_call(_bu.FilSecp256k1AddrDecoder.DecodeAddr, t)[0] == "ok"]
-    return "FilSecp256k1AddrDecoder.DecodeAddr accepts %s beside the address %s" % (", ".join(bad), a_fil(h)) if bad else None
-
-
-def match_nano_padbits(fn, args, record):
-    """NanoAddrDecoder accepts a first symbol whose four high (padding) bits are not zero."""
-    if fn != "addr_nano" or record.get("kind") != "direct":
-        return False
-    s = args[0]
-    if len(s) != 65 or s[:5] != "nano_" or s[5] not in NANO32 or NANO32.index(s[5]) < 2:
-        return False
-    r = impl_call(_bu.NanoAddrDecoder.DecodeAddr, s)
-    return r[0] == "ok" and a_nano(r[1]) == s[:5] + NANO32[NANO32.index(s[5]) & 1] + s[6:]
-
-
-def match_nano_padbits_replay():
-    pub = a_edb(bytes(range(32)))
-    t = a_nano(pub, pad=b"\x00\x00\x0f")
-    return "NanoAddrDecoder.DecodeAddr accepts %s beside the address %s" % (t, a_nano(pub)) if impl_call(_bu.NanoAddrDecoder.DecodeAddr, t)[0] == "ok" else None
-
-
-def _byron_trailing(s):
+def _byron_parts(s):
+    """(outer list, payload list) of a Byron address text read with the harness's CBOR reader, or None"""
     raw = a_b58dec(s)
     try:
         outer, n = cb_parse(raw)
-        if n != len(raw):
-            return True
-        _pl, n2 = cb_parse(outer[0].value)
-        return n2 != len(outer[0].value)
+        if n != len(raw) or not isinstance(outer, list) or len(outer) != 2 or not isinstance(outer[0], CbTag):
+            return None
+        pl, n2 = cb_parse(outer[0].value)
+        if n2 != len(outer[0].value) or not isinstance(pl, list) or len(pl) != 3 or not isinstance(pl[1], dict):
+            return None
+        return outer, pl
     except Exception:  # noqa
+        return None
+
+
+def match_byron_cbor_lax(fn, args, record):
+    """AdaByronAddrDecoder accepts an address whose type field is the CBOR simple value false / true (a bool is an int
+    for isinstance), or whose attribute 1 is CBOR null or a byte string FOLLOWED by more bytes (cbor2.loads stops after
+    the first item)."""
+    if fn != "addr_ada_byron":
         return False
-
-
-def match_byron_trailing(fn, args, record):
-    """AdaByronAddrDecoder ignores bytes that follow the CBOR item (outer array or tagged payload)."""
-    return fn == "addr_ada_byron" and record.get("kind") == "direct" and _byron_trailing(args[0])
-
-
-def match_byron_trailing_replay():
-    s = a_byron(a_byron_payload(bytes(range(28))), junk=b"\x00")
-    return "AdaByronAddrDecoder.DecodeAddr(%r) accepted: one byte follows the CBOR item" % s if impl_call(_bu.AdaByronAddrDecoder.DecodeAddr, s)[0] == "ok" else None
-
-
-def _byron_wrong_types(s):
-    """the CBOR is well-formed and has the outer shape, but the tagged value / an attribute has the wrong CBOR type"""
-    raw = a_b58dec(s)
-    try:
-        outer, _n = cb_parse(raw)
-        if not isinstance(outer, list) or len(outer) != 2 or not isinstance(outer[0], CbTag):
-            return False
-        if not isinstance(outer[0].value, bytes):
-            return True
-        pl, _n2 = cb_parse(outer[0].value)
-        attrs = pl[1]
-        for k in (1, 2):
-            if k in attrs and not isinstance(attrs[k], bytes):
-                return True
-        return 1 in attrs and not isinstance(cb_parse(attrs[1])[0], bytes)
-    except Exception:  # noqa
+    parts = _byron_parts(args[0])
+    if parts is None:
         return False
+    _outer, pl = parts
+    lax = isinstance(pl[2], CbSimple) and pl[2].n in (20, 21)
+    if 1 in pl[1] and isinstance(pl[1][1], bytes):
+        try:
+            v, n = cb_parse(pl[1][1])
+            lax = lax or (isinstance(v, bytes) and n != len(pl[1][1])) or v == CbSimple(22)
+        except ValueError:
+            pass
+    if record.get("kind") == "divergence":
+        return lax and record.get("model") == {"err": "ValueError"} and "ok" in record.get("impl", {})
+    return lax and record.get("kind") == "direct"
 
 
-def match_byron_typeerror(fn, args, record):
-    """AdaByronAddrDecoder lets a TypeError escape for well-formed CBOR whose tagged value or attribute has another type."""
-    return (fn == "addr_ada_byron" and record.get("kind") == "divergence" and record.get("impl") == {"err": "TypeError"}
-            and record.get("model") == {"err": "ValueError"} and _byron_wrong_types(args[0]))
-
-
-def match_byron_typeerror_replay():
-    s = a_b58enc(cb_array([cb_tag(24, cb_uint(5)), cb_uint(0)]))
-    r = impl_call(_bu.AdaByronAddrDecoder.DecodeAddr, s)
-    return "AdaByronAddrDecoder.DecodeAddr(%r) raised %s" % (s, r[1]) if r == ("err", "TypeError") else None
+def match_byron_cbor_lax_replay():
+    rh = bytes(range(28))
+    out = []
+    for what, pl in (("type = false", cb_array([cb_bytes(rh), cb_map([]), b"\xf4"])),
+                     ("attribute 1 = null", cb_array([cb_bytes(rh), cb_map([(cb_uint(1), cb_bytes(b"\xf6"))]), cb_uint(0)])),
+                     ("attribute 1 = h'4101' + 00", cb_array([cb_bytes(rh), cb_map([(cb_uint(1), cb_bytes(b"\x41\x01\x00"))]), cb_uint(0)]))):
+        s = a_byron(pl)
+        if impl_call(_bu.AdaByronAddrDecoder.DecodeAddr, s)[0] == "ok":
+            out.append("%s: %s" % (what, s))
+    return "AdaByronAddrDecoder.DecodeAddr accepts " + "; ".join(out) if out else None
 
 
 def generate(ctx):
